@@ -198,3 +198,201 @@ Qed.
 
 Lemma cat_epoch_full n : concat (cat_epoch n) = seq 0 n /\ length (cat_epoch n) = 1.
 Proof. unfold cat_epoch. simpl. rewrite app_nil_r. split; reflexivity. Qed.
+
+(* ====================================================================================== *)
+(* The code model (index arithmetic, rules records) against the reference model.           *)
+(* Everything here is stated for an arbitrary rules record satisfying the semantic         *)
+(* conditions [*_ok]; Proofs/BatchGen.v shows that the REGENERATED records satisfy them.   *)
+(* ====================================================================================== *)
+
+(* Python's l[j : j+bs] for non-negative j, bs is firstn bs (skipn j l) *)
+Lemma py_slice_nat {A} (l : list A) j bs :
+  py_slice (Z.of_nat j) (Z.of_nat j + Z.of_nat bs)%Z l = firstn bs (skipn j l).
+Proof.
+  unfold py_slice, py_clip.
+  destruct (Z.ltb_spec (Z.of_nat j) 0) as [H0|_]; [lia|].
+  destruct (Z.ltb_spec (Z.of_nat j + Z.of_nat bs) 0) as [H0|_]; [lia|].
+  destruct (le_lt_dec j (length l)) as [Hj|Hj].
+  - rewrite (Z.min_l (Z.of_nat j)) by lia. rewrite Nat2Z.id.
+    destruct (le_lt_dec (j + bs) (length l)) as [Hb|Hb].
+    + rewrite Z.min_l by lia.
+      replace (Z.to_nat (Z.of_nat j + Z.of_nat bs - Z.of_nat j)) with bs by lia. reflexivity.
+    + rewrite Z.min_r by lia.
+      rewrite !firstn_all2; [reflexivity | rewrite skipn_length; lia | rewrite skipn_length; lia].
+  - rewrite (Z.min_r (Z.of_nat j)) by lia. rewrite (Z.min_r (Z.of_nat j + Z.of_nat bs)%Z) by lia.
+    rewrite Nat2Z.id. rewrite !skipn_all2 by lia. rewrite !firstn_nil. reflexivity.
+Qed.
+
+Lemma skipn_skipn_add {A} (a b : nat) : forall l : list A, skipn a (skipn b l) = skipn (a + b) l.
+Proof.
+  induction b as [|b IH]; intros l; [rewrite Nat.add_0_r; reflexivity|].
+  rewrite Nat.add_succ_r. destruct l as [|x l]; [rewrite !skipn_nil; reflexivity|]. cbn [skipn]. apply IH.
+Qed.
+
+Lemma option_map_cons {X Y} (F : X -> Y) x (r : option (list X)) :
+  option_map (map F) (option_map (cons x) r) = option_map (cons (F x)) (option_map (map F) r).
+Proof. destruct r; reflexivity. Qed.
+
+(* the loop `j = 0; while j < len: yield F j; j += bs` visits exactly the chunks of the reference model *)
+Lemma j_loop_chunks {Y} (guard : Z -> Z -> bool) (step : Z -> Z -> Z) (F : Z -> Y) (G : list nat -> Y)
+      (all : list nat) (bs : nat) :
+  (forall j n, guard j n = (j <? n)%Z) -> (forall j b, step j b = (j + b)%Z) -> 1 <= bs ->
+  (forall j, F (Z.of_nat j) = G (firstn bs (skipn j all))) ->
+  forall f2 f1 j, length (skipn j all) <= f1 -> S (length (skipn j all)) <= f2 ->
+  option_map (map F) (j_loop guard step f2 (Z.of_nat (length all)) (Z.of_nat bs) (Z.of_nat j))
+  = Some (map G (chunks_fuel f1 bs (skipn j all))).
+Proof.
+  intros Hg Hs Hbs HF. induction f2 as [|f IH]; intros f1 j H1 H2; [lia|].
+  cbn [j_loop]. rewrite Hg.
+  destruct (Z.ltb_spec (Z.of_nat j) (Z.of_nat (length all))) as [Hlt|Hge].
+  - pose proof (skipn_length j all) as Hlen.
+    destruct f1 as [|f1]; [lia|].
+    remember (skipn j all) as l eqn:El. destruct l as [|x l]; [simpl in Hlen; lia|].
+    cbn [chunks_fuel map]. rewrite El. rewrite skipn_skipn_add.
+    rewrite option_map_cons. rewrite Hs.
+    replace (Z.of_nat j + Z.of_nat bs)%Z with (Z.of_nat (bs + j)) by lia.
+    rewrite (IH f1 (bs + j)).
+    + cbn [option_map]. rewrite HF. reflexivity.
+    + rewrite skipn_length. simpl length in H1, Hlen. lia.
+    + rewrite skipn_length. simpl length in H2, Hlen. lia.
+  - rewrite skipn_all2 by lia. rewrite chunks_nil. reflexivity.
+Qed.
+
+(* ---- conditions on the rules ---- *)
+Definition none_default_ok (f : Z -> option Z -> Z) : Prop :=
+  forall n o, f n o = match o with None => n | Some b => b end.
+Definition batch_rules_ok (B : BatchRules) : Prop :=
+  (forall n, r_perm_len B n = n) /\ none_default_ok (r_bs B) /\ r_start B = 0%Z /\
+  (forall j n, r_guard B j n = (j <? n)%Z) /\
+  (forall j b, r_lo B j b = j) /\ (forall j b, r_hi B j b = (j + b)%Z) /\
+  (forall b, r_rows B b = b) /\ (forall b, r_aff_rows B b = b) /\ (forall b, r_aff_cols B b = b) /\
+  (forall j b, r_step B j b = (j + b)%Z).
+Definition deco_rules_ok (D : DecoRules) : Prop :=
+  (forall n, d_arange D n = n) /\ (forall s, d_recorded D s = s) /\ (forall s, d_rows D s = s).
+Definition step_rules_ok (S : StepRules) : Prop :=
+  s_infer_x S = SrcBatch /\ s_gemini_aff S = SrcBatch /\ s_grads_x S = SrcBatch.
+Definition fit_rules_ok (F : FitRules) : Prop :=
+  (forall m, f_epochs F m = m) /\ (forall m, f_n_iter F m = m) /\ step_rules_ok (f_step F).
+(* the index part of compute_val_score's rules (any number type) *)
+Definition val_idx_ok {T} (V : ValRules (T := T)) : Prop :=
+  v_start V = 0%Z /\ (forall j n, v_guard V j n = (j <? n)%Z) /\ (forall j b, v_step V j b = (j + b)%Z) /\
+  (forall j b, v_x_lo V j b = j) /\ (forall j b, v_x_hi V j b = (j + b)%Z) /\
+  (forall j b, v_yr_lo V j b = j) /\ (forall j b, v_yr_hi V j b = (j + b)%Z) /\
+  (forall j b, v_yc_lo V j b = j) /\ (forall j b, v_yc_hi V j b = (j + b)%Z) /\
+  none_default_ok (v_path_bs V).
+
+Lemma none_default_eff_bs f n bs : none_default_ok f ->
+  f (Z.of_nat n) (option_map Z.of_nat bs) = Z.of_nat (eff_bs n bs).
+Proof. intros H. rewrite H. destruct bs; reflexivity. Qed.
+
+(* ---- _batchify ---- *)
+Lemma code_index_batches_ok B : batch_rules_ok B -> forall n bs P,
+  1 <= eff_bs n bs -> length (P (Z.of_nat n)) = n ->
+  code_index_batches B n bs P = Some (epoch n bs (P (Z.of_nat n))).
+Proof.
+  intros (Hp & Hb & H0 & Hg & Hlo & Hhi & _ & _ & _ & Hs) n bs P Hbs Hlen.
+  unfold code_index_batches, epoch, batches. rewrite Hp, H0, (none_default_eff_bs _ _ _ Hb).
+  set (all := P (Z.of_nat n)) in *. rewrite <- Hlen at 2.
+  change 0%Z with (Z.of_nat 0).
+  rewrite (j_loop_chunks (r_guard B) (r_step B) _ (fun b => b) all (eff_bs n bs) Hg Hs Hbs) with (f1 := length all).
+  - cbn [skipn]. rewrite map_id. reflexivity.
+  - intros j. rewrite Hlo, Hhi. apply py_slice_nat.
+  - cbn [skipn]. lia.
+  - cbn [skipn]. lia.
+Qed.
+
+Definition dup3 (b : list nat) : Yield := (b, (b, b)).
+
+Lemma code_batchify_ok B : batch_rules_ok B -> forall n bs P,
+  1 <= eff_bs n bs -> length (P (Z.of_nat n)) = n ->
+  code_batchify B n bs P = Some (map dup3 (epoch n bs (P (Z.of_nat n)))).
+Proof.
+  intros HB n bs P Hbs Hlen. unfold code_batchify. rewrite (code_index_batches_ok B HB) by assumption.
+  destruct HB as (_ & _ & _ & _ & _ & _ & Hr & Har & Hac & _). cbn [option_map]. f_equal.
+  apply map_ext. intros b. unfold yield_of, dup3. rewrite Hr, Har, Hac. reflexivity.
+Qed.
+
+(* ---- decorate_batch ---- *)
+Lemma chunks_incl fuel bs l c : In c (chunks_fuel fuel bs l) -> incl c l.
+Proof.
+  revert l. induction fuel as [|f IH]; intros l Hc; [destruct Hc|].
+  destruct l as [|x l]; [destruct Hc|]. cbn [chunks_fuel] in Hc. destruct Hc as [<-|Hc].
+  - intros y Hy. rewrite <- (firstn_skipn bs (x :: l)). apply in_or_app. left. exact Hy.
+  - intros y Hy. rewrite <- (firstn_skipn bs (x :: l)). apply in_or_app. right. apply (IH _ Hc). exact Hy.
+Qed.
+Lemma take_arange_id n b : Forall (fun i => i < n) b -> map (fun i => nth i (seq 0 n) 0) b = b.
+Proof.
+  induction b as [|i b IHb]; intros H; [reflexivity|]. inversion H; subst. cbn [map].
+  rewrite seq_nth by assumption. simpl. f_equal. apply IHb. assumption.
+Qed.
+
+Definition dup4 (b : list nat) : list nat * (list nat * (list nat * list nat)) := (b, (b, (b, b))).
+
+Lemma code_decorated_ok B D : batch_rules_ok B -> deco_rules_ok D -> forall n bs P,
+  1 <= eff_bs n bs -> is_perm_of_range n (P (Z.of_nat n)) ->
+  code_decorated B D n bs P = Some (map dup4 (epoch n bs (P (Z.of_nat n)))).
+Proof.
+  intros HB (Ha & Hrec & Hrows) n bs P Hbs (Hnd & Hlen & Hall). unfold code_decorated.
+  rewrite Ha, Nat2Z.id, seq_length. rewrite (code_batchify_ok B HB) by assumption.
+  cbn [option_map]. f_equal. rewrite map_map. apply map_ext_in. intros b Hb.
+  unfold dup3, dup4. cbn [fst snd]. rewrite Hrec, Hrows.
+  rewrite take_arange_id; [reflexivity|].
+  apply Forall_forall. intros i Hi. rewrite Forall_forall in Hall. apply Hall.
+  unfold epoch, batches in Hb. apply (chunks_incl _ _ _ _ Hb). exact Hi.
+Qed.
+
+(* ---- fit / _run_path training loops ---- *)
+Definition reads_of (b : list nat) : Reads := (b, ((b, b), b)).
+
+Lemma step_reads_ok S n b : step_rules_ok S -> step_reads S n (dup3 b) = reads_of b.
+Proof. intros (H1 & H2 & H3). unfold step_reads. rewrite H1, H2, H3. reflexivity. Qed.
+
+Lemma code_epochs_all (E : nat -> option (list Yield)) (Y : nat -> list Yield) l :
+  (forall e, In e l -> E e = Some (Y e)) -> code_epochs E l = Some (concat (map Y l)).
+Proof.
+  induction l as [|e l IH]; intros H; [reflexivity|]. cbn [code_epochs map concat].
+  rewrite (H e (or_introl eq_refl)). rewrite IH by (intros e' He'; apply H; right; exact He'). reflexivity.
+Qed.
+
+Lemma code_fit_trace_ok B F : batch_rules_ok B -> fit_rules_ok F -> forall max_iter n bs (P : nat -> Z -> list nat),
+  1 <= eff_bs n bs -> (forall e, e < max_iter -> length (P e (Z.of_nat n)) = n) ->
+  code_fit_trace B F max_iter n bs P
+  = Some (concat (map (fun e => map reads_of (epoch n bs (P e (Z.of_nat n)))) (seq 0 max_iter))).
+Proof.
+  intros HB (He & _ & HS) max_iter n bs P Hbs HP. unfold code_fit_trace, py_range.
+  rewrite He, Nat2Z.id.
+  rewrite (code_epochs_all _ (fun e => map dup3 (epoch n bs (P e (Z.of_nat n))))).
+  - cbn [option_map]. f_equal. rewrite concat_map, map_map. f_equal. apply map_ext. intros e.
+    rewrite map_map. apply map_ext. intros b. apply step_reads_ok. exact HS.
+  - intros e Hin. apply in_seq in Hin. apply (code_batchify_ok B HB); [exact Hbs | apply HP; lia].
+Qed.
+
+Lemma length_concat_map_epochs {X} (f : list nat -> X) n bs (perms : nat -> list nat) max_iter :
+  length (concat (map (fun e => map f (epoch n bs (perms e))) (seq 0 max_iter))) = fit_steps max_iter n bs perms.
+Proof.
+  unfold fit_steps. generalize 0 as s. induction max_iter as [|k IH]; intros s; [reflexivity|].
+  cbn [seq map concat]. rewrite app_length, map_length, IH.
+  match goal with |- _ = list_sum (?x :: ?r) => change (list_sum (x :: r)) with (x + list_sum r) end. reflexivity.
+Qed.
+
+Lemma code_path_epoch_ok B S : batch_rules_ok B -> step_rules_ok S -> forall n bs P,
+  1 <= eff_bs n bs -> length (P (Z.of_nat n)) = n ->
+  code_path_epoch B S n bs P = Some (map reads_of (epoch n bs (P (Z.of_nat n)))).
+Proof.
+  intros HB HS n bs P Hbs Hlen. unfold code_path_epoch. rewrite (code_batchify_ok B HB) by assumption.
+  cbn [option_map]. f_equal. rewrite map_map. apply map_ext. intros b. apply step_reads_ok. exact HS.
+Qed.
+
+(* ---- compute_val_score: the blocks ---- *)
+Lemma code_val_blocks_ok {T} (V : ValRules (T := T)) : val_idx_ok V -> forall n bs, 1 <= bs ->
+  code_val_blocks V n (Z.of_nat bs) = Some (map dup3 (val_blocks n bs)).
+Proof.
+  intros (H0 & Hg & Hs & Hxl & Hxh & Hrl & Hrh & Hcl & Hch & _) n bs Hbs.
+  unfold code_val_blocks, val_blocks, batches. rewrite H0. change 0%Z with (Z.of_nat 0).
+  replace (Z.of_nat n) with (Z.of_nat (length (seq 0 n))) by (rewrite seq_length; reflexivity).
+  rewrite (j_loop_chunks (v_guard V) (v_step V) _ dup3 (seq 0 n) bs Hg Hs Hbs) with (f1 := length (seq 0 n)).
+  - reflexivity.
+  - intros j. rewrite Hxl, Hxh, Hrl, Hrh, Hcl, Hch, !py_slice_nat. reflexivity.
+  - cbn [skipn]. lia.
+  - cbn [skipn]. rewrite seq_length. lia.
+Qed.
